@@ -25,6 +25,7 @@ MC_MODELS = {
     "dec_framing": dec("framing", PC_MSG + PC_CTL + PC_DATA + ["a_hdr", "a_field"]),
     "dec_ctllen": dec("ctllen", PC_MSG + PC_CTL + ["a_hdr", "a_len", "a_field"]),
     "dec_avprec": dec("avprec", PC_CTL + PC_AVP + ["g_done"]),
+    "dec_recprod": dec("recprod", PC_CTL + PC_AVP + ["g_done"]),
     "dec_kinds": dec("kinds", ["a_hdr", "a_len", "a_type", "a_min", "a_field", "g_done"]),
     "dec_loop3": dec("loop3", PC_CTL + PC_AVP + ["g_done"], quick_only=True),
     "dec_loop4": dec("loop4", PC_CTL + PC_AVP + ["g_done"], thorough_only=True),
@@ -74,7 +75,7 @@ MC_MODELS = {
                     "apalache": ["--cinit=ConstInit", "--init=IndInit", "--next=Next", "--inv=IndInv", "--length=1"]},
 }
 
-DEC_MODELS = ["dec_framing", "dec_ctllen", "dec_avprec", "dec_kinds", "dec_loop3", "dec_loop4", "dec_data"]
+DEC_MODELS = ["dec_framing", "dec_ctllen", "dec_avprec", "dec_recprod", "dec_kinds", "dec_loop3", "dec_loop4", "dec_data"]
 ENC_MODELS = ["enc_avps", "enc_msgs", "enc_sizes", "enc_huge"]
 
 DECODE_EVENTS = ("decode", "decode_avps", "decode_payload", "decode_seq", "decode_opts", "decode_bits", "decode_suffix", "avps_concat")
@@ -153,7 +154,7 @@ PROPS = {
         "assumptions": COMMON_ASSUMPTIONS,
     },
     "C10": {
-        "mc": ["dec_framing", "dec_avprec", "dec_kinds", "dec_data", "dec_loop3", "dec_loop4"], "gen": ["chain", "many_avps", "small_values", "avp_lengths", "kind_pairs", "octet_sweep", "text_classes", "rfc_messages"],
+        "mc": ["dec_framing", "dec_avprec", "dec_recprod", "dec_kinds", "dec_data", "dec_loop3", "dec_loop4"], "gen": ["chain", "many_avps", "small_values", "avp_lengths", "kind_pairs", "octet_sweep", "text_classes", "rfc_messages"],
         "rule": "decode -> encode -> strict decode -> encode chains from non-canonical accepted inputs (reserved bits, P/O "
                 "and version under lax options, unset M bit, reserved AVP bits, surplus payload, trailing octets) under "
                 "all option sets; TLC: Normalises on every accepted run of the decoder grammars",
@@ -189,7 +190,7 @@ PROPS = {
         "exhaustive_thorough": True,
     },
     "C15": {
-        "mc": ["dec_loop3", "dec_loop4", "dec_avprec", "dec_ctllen"], "gen": ["ctl_records", "many_avps", "kind_pairs", "record_product"],
+        "mc": ["dec_loop3", "dec_loop4", "dec_avprec", "dec_recprod", "dec_ctllen"], "gen": ["ctl_records", "many_avps", "kind_pairs", "record_product"],
         "rule": "all sequences of up to 3 (thorough: 4) records from 8 classes (valid Message Type, other valid, "
                 "undecodable, unknown type, vendor, hidden, length < 6, overrun) explored by TLC and replayed; random "
                 "assemblies of up to 12 good / bad records; error count and order, all-or-nothing",
